@@ -21,12 +21,11 @@ var c20Vetted = map[string]string{
 
 // Vetted non-local nil guards (C20.nilfield), closed table.
 var c20VettedNil = map[string]string{
-	"*time.Time @ x/cfeminter/types.Params.validateMintersEndTimeValue : dereference":                                             "EndTime of a non-last period: validateEndTimeExistance, called just before in the same loop iteration, returns an error when EndTime is nil and the position is below lastPos; both dereferencing branches require position < lastPos",
-	"*x/cfedistributor/types.Account @ x/cfedistributor/types.getId : field .Id":                                                  "accounts reach the ordering validation only after SubDistributor.Validate / Destinations.Validate ran over every sub-distributor (first loop of validateSubDistributors) and rejected nil sources",
-	"*x/cfedistributor/types.Account @ x/cfedistributor/types.getId : field .Type":                                                "same argument",
-	"*x/cfedistributor/types.Account @ x/cfedistributor/types.setOccurrence : field .Type":                                        "same argument",
-	"*x/cfedistributor/types.DestinationShare @ x/cfedistributor/types.validateDestinationsShares : field .Destination":           "shares were nil-checked by Destinations.Validate for every sub-distributor before ValidateSubDistributors runs",
-	"*x/cfedistributor/types.DestinationShare @ x/cfedistributor/types.validateDestinationsShares : field .Name":                  "same argument",
+	"*time.Time @ x/cfeminter/types.Params.validateMintersEndTimeValue : dereference": "EndTime of a non-last period: validateEndTimeExistance, called just before in the same loop iteration, returns an error when EndTime is nil and the position is below lastPos; both dereferencing branches require position < lastPos",
+	// " : *" = whatever the use is (field read, dereference, method call): the argument is about the value, not the use
+	"*x/cfedistributor/types.Account @ x/cfedistributor/types.getId : *":                                                          "accounts reach the ordering validation only after SubDistributor.Validate / Destinations.Validate ran over every sub-distributor (first loop of validateSubDistributors) and rejected nil sources",
+	"*x/cfedistributor/types.Account @ x/cfedistributor/types.setOccurrence : *":                                                  "same argument",
+	"*x/cfedistributor/types.DestinationShare @ x/cfedistributor/types.validateDestinationsShares : *":                            "shares were nil-checked by Destinations.Validate for every sub-distributor before ValidateSubDistributors runs",
 	"sdk/types.Dec @ x/cfedistributor/types.Destinations.CheckIfSharesSumIsBetween0And1 : argument of Add (possibly-nil Int/Dec)": "argument share.Share: each share passed DestinationShare.validate (which rejects a nil Share) in the loop of Destinations.Validate that precedes this call",
 }
 
@@ -112,6 +111,10 @@ func checkC20(w *World, r *Report) {
 					}
 				}
 				if why, ok := c20VettedNil[sk.key()]; ok {
+					r.Assume("C20.nilfield", key, pos, "vetted: "+why)
+					continue
+				}
+				if why, ok := c20VettedNil[sk.key()[:strings.LastIndex(sk.key(), " : ")]+" : *"]; ok {
 					r.Assume("C20.nilfield", key, pos, "vetted: "+why)
 					continue
 				}
